@@ -127,7 +127,7 @@ def run(ctx):
                  ("power", "3^(10^9)"), ("recurring", "1/(10^9+7) to float"), ("root", "2^0.12345"), ("exp", "exp 0.12345"), ("nCr", "10^6 nCr 500000"), ("nPr", "10^6 nPr 500000"), ("implicit-sum", " ".join(["2 m"] * 30000)),
                  ("decimal-places", "1/7 to 100000000 dp"), ("sig-figs", "pi to 1000000 sf"), ("hex", "3^(10^7) to hex"), ("base3", "(10^(10^6)) to base 3"), ("gcd", "(3^(10^6)+1)/(7^(10^6)+1) + 1"), ("mod", "3^(10^7) mod (2^521-1)"),
                  ("compare", "3^(10^6) == 3^(10^6) + 1"), ("sqrt", "sqrt(10^(10^6))"), ("lambda", "(x: x^(10^8)) 3"), ("unit-power", "(3 kg)^(10^8)"), ("to-string", '"a" + (3^(10^7) to string)'), ("factorial", "(10^6)!"),
-                 ("words", "(10^3000 - 1) to words"), ("unit-convert", "3^(10^7) km to mm"), ("roman", "10^9 to roman"), ("statements", "va = 3^(10^7); vb = 5^(10^7); va * vb"), ("preview:power", "3^(10^9)"), ("preview:days", "@2000-01-01 + 10^12 days")]
+                 ("words", "(10^3000 - 1) to words"), ("unit-convert", "3^(10^7) km to mm"), ("roman", "10^9 to roman"), ("statements", "va = 3^(10^7); vb = 5^(10^7); va * vb"), ("log2", "log2(1 << 1000000)"), ("log10", "log10(1 << 800000)"), ("ln", "ln(1 << 900000)"), ("bits-of-power", "log2(3^(10^6))"), ("preview:power", "3^(10^9)"), ("preview:days", "@2000-01-01 + 10^12 days")]
     lines_d = [f"{'deadline-preview' if n.startswith('preview:') else 'deadline'} 200 {hx(t)}" for n, t in unbounded]
     outs_d = ctx.run_lines_robust(h, ["intr"], lines_d, env={"HARNESS_LINE_TIMEOUT_S": "25"})
     dist["deadline_probes"] = {}
